@@ -471,6 +471,14 @@ theorem poweroff_does_not_unemit (s0 : State) (acts : List Act) (j : Nat) (h0 : 
     rw [sghost_snoc]
     exact ⟨p, rest, h1, h2, h4, h3⟩
 
+/-- The interleaving semantics refines the sequential model: a tick of the clock thread that is not
+interleaved with socket operations, and that no exception leaves, is exactly `World.tick` — same
+world, same datagrams, same number of stale reports. -/
+theorem uninterleaved_tick_is_tick (w : World) (hx : (tick w).exc = none) (sout : List Dgram) :
+    ∃ n, clockRun ⟨w, Pc.idle, [], 0, sout⟩ n =
+      ⟨(tick w).world, Pc.idle, (tick w).out, (tick w).stale, sout⟩ :=
+  tick_run hx sout
+
 end PartB
 
 /-! ## Non-vacuity (Part A) -/
